@@ -58,4 +58,103 @@ theorem reg_body_exec {r : Rd} (p : String) (hasR hasE : Bool) (rv w wr we wdd v
       cases h2 : ve == 0 <;> simp [exec, hres, hlw, hcoreV]
     · simp [exec, hres, hlw, hrstV]
 
+/-! ### all register bodies at one edge -/
+
+def RegI.rq (R : RegI) : String := R.pfx ++ "rq"
+
+/-- what the flattened body of `R` queues when the pre-edge values of the simulator nets are `V` -/
+def RegI.nba (wd : Nat → Nat) (V : Nat → Nat) (R : RegI) : List (Tgt × BV) :=
+  regNba R.pfx R.leaf.hasR R.leaf.hasE R.leaf.rv (wd R.leaf.q) (V R.leaf.r) (V R.leaf.e) (V R.leaf.d)
+
+/-- the ports of the flattened instance carry the simulator's values of the connected nets -/
+structure RegKnown (wd : Nat → Nat) (V : Nat → Nat) (r : Rd) (R : RegI) : Prop where
+  d : Known r (R.pfx ++ "d") (wd R.leaf.d) (V R.leaf.d)
+  e : R.leaf.hasE = true → Known r (R.pfx ++ "e") (wd R.leaf.e) (V R.leaf.e)
+  r : R.leaf.hasR = true → Known r (R.pfx ++ "r") (wd R.leaf.r) (V R.leaf.r)
+  rq : r.info R.rq = some { width := wd R.leaf.q }
+  rv : R.leaf.rv < 2 ^ 31
+
+theorem fireAll_regs_acc (regs : List RegI) (r : Rd) (wd : Nat → Nat) (V : Nat → Nat)
+    (h : ∀ R, R ∈ regs → RegKnown wd V r R) (q0 : List (Tgt × BV)) :
+    (regs.map RegI.proc).foldl (fun acc ep =>
+      match ep.1 with
+      | .pos _ =>
+          let x := exec (σ := Rd) id wrA none ep.2 { st := acc.1, nba := [] }
+          (x.st, acc.2 ++ x.nba)
+      | _ => acc) (r, q0) = (r, q0 ++ regs.flatMap (RegI.nba wd V)) := by
+  induction regs generalizing q0 with
+  | nil => simp
+  | cons R regs ih =>
+    have hk := h R (by simp)
+    have hx := reg_body_exec R.pfx R.leaf.hasR R.leaf.hasE R.leaf.rv (wd R.leaf.q) _ _ _ (V R.leaf.r) (V R.leaf.e)
+      (V R.leaf.d) hk.r hk.e hk.d hk.rq hk.rv []
+    simp only [List.map_cons, List.foldl, RegI.proc, hx, List.nil_append]
+    rw [ih (fun R' hR' => h R' (by simp [hR']))]
+    simp [List.flatMap_cons, RegI.nba]
+
+theorem fireAll_regs (regs : List RegI) (r : Rd) (wd : Nat → Nat) (V : Nat → Nat)
+    (h : ∀ R, R ∈ regs → RegKnown wd V r R) :
+    fireAll (regs.map RegI.proc) r = (r, regs.flatMap (RegI.nba wd V)) := by
+  unfold fireAll
+  rw [fireAll_regs_acc regs r wd V h []]
+  simp
+
+/-- the value of `rq` after the edge -/
+def RegI.newRq (wd : Nat → Nat) (V : Nat → Nat) (R : RegI) (old : BV) : BV :=
+  if R.leaf.hasR && V R.leaf.r == 1 then ⟨wd R.leaf.q, R.leaf.rv % 2 ^ wd R.leaf.q, true⟩
+  else if R.leaf.hasE && V R.leaf.e == 0 then old
+  else ⟨wd R.leaf.q, V R.leaf.d % 2 ^ wd R.leaf.q, true⟩
+
+theorem applyNbaA_info (r : Rd) (q : List (Tgt × BV)) : (applyNbaA r q).info = r.info := by
+  induction q generalizing r with
+  | nil => rfl
+  | cons a q ih => simp only [applyNbaA, List.foldl] at ih ⊢; rw [ih, wrA_info]
+
+theorem applyNbaA_mem (r : Rd) (q : List (Tgt × BV)) : (applyNbaA r q).mem = r.mem := by
+  induction q generalizing r with
+  | nil => rfl
+  | cons a q ih => simp only [applyNbaA, List.foldl] at ih ⊢; rw [ih, wrA_mem]
+
+theorem applyNbaA_append (r : Rd) (q1 q2 : List (Tgt × BV)) :
+    applyNbaA r (q1 ++ q2) = applyNbaA (applyNbaA r q1) q2 := by
+  simp [applyNbaA, List.foldl_append]
+
+theorem applyNba_one (wd : Nat → Nat) (V : Nat → Nat) (R : RegI) (r : Rd)
+    (hi : r.info R.rq = some { width := wd R.leaf.q }) (n : String) :
+    (applyNbaA r (R.nba wd V)).val n = if n = R.rq then R.newRq wd V (r.val R.rq) else r.val n := by
+  have hw : widthOf r (R.pfx ++ "rq") = wd R.leaf.q := by simp [widthOf, RegI.rq] at hi ⊢; simp [hi]
+  unfold RegI.nba regNba RegI.newRq
+  by_cases h1 : (R.leaf.hasR && V R.leaf.r == 1) = true
+  · simp only [h1, if_true, applyNbaA, List.foldl, wrA, setWhole, norm, hw, Nat.mod_mod, RegI.rq]
+  · simp only [h1, if_false, Bool.false_eq_true]
+    by_cases h2 : (R.leaf.hasE && V R.leaf.e == 0) = true
+    · simp only [h2, if_true, applyNbaA, List.foldl]
+      by_cases e : n = R.rq <;> simp [e]
+    · simp only [h2, if_false, Bool.false_eq_true, applyNbaA, List.foldl, wrA, setWhole, norm, hw, Nat.mod_mod, RegI.rq]
+
+theorem applyNba_regs (wd : Nat → Nat) (V : Nat → Nat) (regs : List RegI) (hn : (regs.map RegI.rq).Nodup) (r : Rd)
+    (hi : ∀ R, R ∈ regs → r.info R.rq = some { width := wd R.leaf.q }) :
+    (∀ R, R ∈ regs → (applyNbaA r (regs.flatMap (RegI.nba wd V))).val R.rq = R.newRq wd V (r.val R.rq)) ∧
+    (∀ n, n ∉ regs.map RegI.rq → (applyNbaA r (regs.flatMap (RegI.nba wd V))).val n = r.val n) := by
+  induction regs generalizing r with
+  | nil => simp [applyNbaA]
+  | cons R regs ih =>
+    simp only [List.map_cons, List.nodup_cons] at hn
+    simp only [List.flatMap_cons, applyNbaA_append]
+    have hi' : ∀ R', R' ∈ regs → (applyNbaA r (R.nba wd V)).info R'.rq = some { width := wd R'.leaf.q } := by
+      intro R' hR'; rw [applyNbaA_info]; exact hi R' (by simp [hR'])
+    have ⟨ih1, ih2⟩ := ih hn.2 (applyNbaA r (R.nba wd V)) hi'
+    constructor
+    · intro R' hR'
+      simp only [List.mem_cons] at hR'
+      rcases hR' with e | hR'
+      · subst e
+        rw [ih2 _ hn.1, applyNba_one wd V R' r (hi R' (by simp)), if_pos rfl]
+      · rw [ih1 R' hR', applyNba_one wd V R r (hi R (by simp))]
+        have : R'.rq ≠ R.rq := fun e => hn.1 (e ▸ List.mem_map.mpr ⟨R', hR', rfl⟩)
+        rw [if_neg this]
+    · intro n hn'
+      simp only [List.mem_cons, not_or] at hn'
+      rw [ih2 n hn'.2, applyNba_one wd V R r (hi R (by simp)), if_neg hn'.1]
+
 end FlatM
